@@ -437,7 +437,7 @@ fn gen_op(s: &mut Choices, kind: Kind, st: &mut St) -> Option<Op> {
                     1 => 240 + s.below(20),
                     _ => s.below(41),
                 };
-                Op::RhctIsa(len as u16)
+                Op::RhctIsa(len)
             }
         }
         Kind::Rimt => match s.below(3) {
@@ -460,7 +460,7 @@ fn gen_op(s: &mut Choices, kind: Kind, st: &mut St) -> Option<Op> {
                     0 => s.below(3),
                     1 => 250 + s.below(12),
                     _ => s.below(41),
-                } as u16;
+                };
                 Op::RimtPlat { id: s.u16(), name_len, maps: gen_idmaps(s, st.iommus) }
             }
         },
